@@ -174,8 +174,16 @@ func (sc *StateCache) Get(key, blockHash string) (Value, bool) {
 			return nil, false
 		}
 
-		blockHash = prevHash.(string)
+		// The link of a block is published after its values (see commit), and the
+		// value of this block was looked up before its link was seen: its commit may
+		// have completed in between. Look again before walking on, otherwise an
+		// ancestor's value would be returned (and memoised) for a block that wrote
+		// the key itself.
 		vv, ok = bvs.Get(blockHash)
+		if !ok {
+			blockHash = prevHash.(string)
+			vv, ok = bvs.Get(blockHash)
+		}
 		if !ok {
 			// stop if the value is not found in previous maxHisDepth rounds
 			if count >= sc.maxHisDepth {
@@ -192,7 +200,9 @@ func (sc *StateCache) Get(key, blockHash string) (Value, bool) {
 		// if count >= 20 {
 		// memoise the value for the queried block in the key's existing version
 		// map; replacing the map would drop the versions of all other blocks
-		bvs.Add(oldBlockHash, v)
+		if blockHash != oldBlockHash {
+			bvs.Add(oldBlockHash, v)
+		}
 		// logging.Logger.Debug("state cache - migrate from previous block",
 		// 	zap.String("key", key),
 		// 	zap.Int("depth", count))
